@@ -39,6 +39,7 @@ func run(c *vrt.Ctx) {
 		{"fixed", checkFixed},
 		{"newtoncotes", checkNewtonCotes},
 		{"fd", checkFD},
+		{"fddefault", checkFDDefault},
 		{"dual", checkDual},
 		{"hyperdual", checkHyperdual},
 		{"quat", checkQuat},
